@@ -6,7 +6,9 @@ import NucsProofs.Engine.Optimum
 
   `Dfs.ConsKeeps` for shaving is `C10_keeps_Sol` (NucsProofs/Engine/Shaving.lean), `ConsOk` is
   `C10_consOk_shaving` (needs at least one shared domain).  Termination of the shaving pass
-  (`Dfs.ConsTerm` for shaving: `shavingFuel` suffices) is NOT proved, hence only the `_partial` forms.
+  (`Dfs.ConsTerm` for shaving: `shavingFuel` suffices) is proved in NucsProofs/Engine/ShavingTerm.lean, where the TOTAL
+  forms (`C02_enumeration_shaving`, `C02_bc_vs_shaving`, `C03_optimum_shaving`) are derived from the `_partial` forms
+  kept here.
 -/
 namespace Nucs
 
